@@ -562,14 +562,29 @@ func execC19Session(c *child.Ctx, k proxyCase, cj []byte) {
 				return
 			}
 			if len(upGot) < len(clientBytes) && bytes.Equal(upGot, clientBytes[:len(upGot)]) {
-				// alive but silent for 20 s: ask the runtime what it is doing
+				// Everything was sent and nothing has arrived for 20 s.  Give it another 30 s
+				// (a runnable goroutine is not starved for 50 s), then ask the runtime what it
+				// is doing.
+				more := readN(up, len(clientBytes)-len(upGot), 30*time.Second, clientSent)
+				if len(more) > 0 {
+					c.Inconclusive("relay made progress only after a silence of more than 20 s")
+					conn.Close()
+					up.Close()
+					return
+				}
 				p.cmd.Process.Signal(syscall.SIGQUIT)
 				<-p.exited
 				dump := p.stderrTail()
-				if why := clientGoroutineBlockedInside(p.fullStderr()); why != "" && proxyAllBlocked(p.fullStderr()) {
-					c.Violate("relay-stopped", fmt.Sprintf("the proxy stopped relaying after %d of %d client bytes; its client-side goroutine is blocked inside the proxy (%s), not waiting for the network:\n%s", len(upGot), len(clientBytes), why, dump), cj)
-				} else {
-					c.Inconclusive("relay incomplete after 20 s without a logical explanation")
+				why := clientGoroutineBlockedInside(p.fullStderr())
+				switch {
+				case why != "" && proxyAllBlocked(p.fullStderr()):
+					c.Violate("relay-stopped", fmt.Sprintf("the proxy stopped relaying after %d of %d client bytes; every proxy goroutine is parked and its client-side goroutine is blocked inside the proxy (%s), not waiting for the network:\n%s", len(upGot), len(clientBytes), why, dump), cj)
+				case why != "":
+					// not a deadlock: some goroutine is still running, but for 50 s it has
+					// not let a single byte through while the client side waits on it
+					c.Violate("relay-stopped", fmt.Sprintf("the proxy relayed nothing for 50 s after %d of %d client bytes although everything had been sent; its client-side goroutine is blocked inside the proxy (%s) while another goroutine keeps running:\n%s", len(upGot), len(clientBytes), why, dump), cj)
+				default:
+					c.Inconclusive("relay incomplete after 50 s without a logical explanation")
 				}
 				conn.Close()
 				up.Close()
